@@ -94,6 +94,8 @@ pub struct Observed {
     pub written: Option<BTreeMap<String, String>>,
     /// sandbox-relative paths the operation opened
     pub opened: std::collections::BTreeSet<String>,
+    /// the operation was run a second time, fault-free, on what the interrupted run left behind
+    pub reran_on_leftovers: bool,
 }
 
 fn apply_store_fault(sb: &Sandbox, f: &StoreFault) -> bool {
@@ -402,7 +404,7 @@ pub fn execute(sb: &Sandbox, base: &Files, op: &OpSpec, plan: &FaultPlan) -> Obs
             written = Some(w);
         }
     }
-    Observed { exit: res.exit, counts, syscalls: res.syscalls, fired: res.fired, problems, written, opened }
+    Observed { exit: res.exit, counts, syscalls: res.syscalls, fired: res.fired, problems, written, opened, reran_on_leftovers: false }
 }
 
 /// `execute`, plus the comparison with what the fault-free run of the same operation wrote: under
@@ -413,6 +415,22 @@ pub static HANGS_SEEN: std::sync::atomic::AtomicU32 = std::sync::atomic::AtomicU
 
 pub fn execute_vs(sb: &Sandbox, base: &Files, op: &OpSpec, plan: &FaultPlan, clean_written: Option<&BTreeMap<String, String>>) -> Observed {
     let mut obs = execute(sb, base, op, plan);
+    // what a killed or failed invocation leaves behind (half-written artifacts, staging and lock
+    // files) is the input of the next one: the same operation, fault-free, on the store *as it
+    // was left* must again end with success or a diagnostic
+    let writes = matches!(op.entry.as_str(), "check" | "build" | "link");
+    let interrupted = obs.exit == Exit::Killed
+        || (matches!(obs.exit, Exit::Err(_)) && obs.fired.iter().any(|f| f.starts_with("write:") || f.starts_with("rename:") || f.starts_with("fsync:") || f.starts_with("unlink:") || f.starts_with("mkdir:")));
+    if writes && interrupted && obs.problems.is_empty() {
+        let spec = ProcSpec { entropy: plan.spec.entropy ^ 0x1ef7, readdir: plan.spec.readdir, ..Default::default() };
+        let again = ops::goml(sb, &spec, expand(sb, &op.args));
+        obs.reran_on_leftovers = true;
+        match &again.exit {
+            Exit::Panicked(m) => obs.problems.push(("panic-on-leftovers".to_string(), format!("the next invocation, on what the interrupted one left behind, panics: {}", sb.normalise(m)))),
+            Exit::Hung => obs.problems.push(("hang-on-leftovers".to_string(), "the next invocation, on what the interrupted one left behind, does not terminate".to_string())),
+            _ => {}
+        }
+    }
     if plan.store != StoreFault::None {
         return obs;
     }
@@ -1049,6 +1067,10 @@ fn check_case(sb: &Sandbox, opts: &Opts, idx: usize, case: &Case, per_op: usize,
             }
             if obs.written.is_some() && plan.store == StoreFault::None && !obs.fired.is_empty() {
                 *r.probes.entry("success_under_transient_faults_output_compared_with_fault_free").or_insert(0) += 1;
+            }
+            if obs.reran_on_leftovers {
+                r.runs += 1;
+                *r.probes.entry("next_invocation_run_on_leftovers_of_an_interrupted_one").or_insert(0) += 1;
             }
             match &obs.exit {
                 Exit::Ok => *r.probes.entry("faulty_op_still_succeeded").or_insert(0) += 1,
